@@ -58,6 +58,7 @@ import numpy as np
 from scipy.spatial.transform import Rotation as R
 
 from magpylib._src._verif import fault_point
+from magpylib._src._verif import iteration_order
 from magpylib._src.exceptions import MagpylibBadUserInput
 from magpylib._src.exceptions import MagpylibMissingInput
 from magpylib._src.input_checks import check_dimensions
@@ -268,6 +269,7 @@ def getBH_level2(
 
     # some important quantities -------------------------------------------------
     obj_list = set(src_list + sensors)  # unique obj entries only !!!
+    obj_list = iteration_order("tile.order", obj_list, src_list + sensors)
     num_of_sources = len(sources)
     num_of_src_list = len(src_list)
     num_of_sensors = len(sensors)
